@@ -3,7 +3,8 @@ findings) and evidence writer shared by all profiles."""
 import os, sys, json, time, random, hashlib, multiprocessing as mp, traceback, re, collections
 
 VERIF = "/verif"
-FINDINGS = os.path.join(VERIF, "findings")
+FINDINGS = os.environ.get("VERIF_FINDINGS_DIR", os.path.join(VERIF, "findings"))
+EVIDENCE = os.environ.get("VERIF_EVIDENCE_DIR", os.path.join(VERIF, "evidence"))
 KNOWN = os.path.join(VERIF, "known_findings.json")
 
 _PROFILES = {}
@@ -219,8 +220,8 @@ def run_check(prop, spec, tier, seed, jobs=None):
         print("INFRA: %d of %d determinism re-checks differed" % (agg["recheck_fail"], agg["rechecks"]))
     wall = time.time() - t0
     ev = evidence(prop, spec, tier, seed, agg, reports, wall, wall_search, jobs)
-    os.makedirs(os.path.join(VERIF, "evidence"), exist_ok=True)
-    with open(os.path.join(VERIF, "evidence", "%s.json" % prop), "w") as f:
+    os.makedirs(EVIDENCE, exist_ok=True)
+    with open(os.path.join(EVIDENCE, "%s.json" % prop), "w") as f:
         json.dump(ev, f, indent=1, sort_keys=True, default=str)
     print("%s %s: %d runs, %d steps, %d distinct non-trivial histories, %.1fs; %d violation class(es) of this property, others=%s" %
           (prop, tier, agg["runs"], agg["steps"], len(agg["nt_hashes"]), wall, len(mine), dict(agg["others"])))
